@@ -24,7 +24,10 @@ def stdout_print_sites():
     files = ["pcfg_guesser.py"] + sorted(
         os.path.join(d, f)[len(common.REPO) + 1:] for d, _, fs in os.walk(os.path.join(common.REPO, "lib_guesser")) for f in fs if f.endswith(".py"))
     for rel in files:
-        tree = ast.parse(open(os.path.join(common.REPO, rel), encoding="utf-8").read())
+        import warnings
+        with warnings.catch_warnings():
+            warnings.simplefilter("ignore")       # the banner's ASCII art has invalid escape sequences
+            tree = ast.parse(open(os.path.join(common.REPO, rel), encoding="utf-8").read())
         for fn in ast.walk(tree):
             if not isinstance(fn, (ast.FunctionDef, ast.Module)):
                 continue
